@@ -86,7 +86,8 @@ type Oracle struct {
 }
 
 func StartOracle(path string) (*Oracle, error) {
-	cmd := exec.Command(path)
+	// the Lean driver recurses over lists structurally: megabyte inputs need more than the default 8 MiB stack
+	cmd := exec.Command("/bin/sh", "-c", `ulimit -s unlimited 2>/dev/null || ulimit -s 4194304 2>/dev/null; exec "$0"`, path)
 	in, err := cmd.StdinPipe()
 	if err != nil {
 		return nil, err
